@@ -16,7 +16,7 @@ import z3
 from pyvc import sx, ob, intake, cx
 from .kernel_env import ZERO, ONE
 from .c03 import bounds_obligations
-from .cxutil import clause
+from .cxutil import clause, canary
 
 PROP = 'C15'
 
@@ -387,8 +387,75 @@ def task_adjoint():
     return col.pack()
 
 
+def task_points_from_grids():
+    """maps._points_from_grids(grid, values, xi, 'volume') -- what interpolate() hands to the averaging kernel: for cell-shaped values the two triples
+    of node vectors it returns hold, direction by direction, exactly the nodes of the input grid and of the output grid (the arrays themselves or
+    arrays of equal contents -- nothing rounded, shifted or exchanged), and the shape returned is the cell shape of the output grid.  (The overlap
+    weights are then normalised with xi.cell_volumes, which are the volumes of THOSE nodes.)"""
+    from .cxutil import UNRECOGNISED
+    col = ob.Collector(PROP, 'maps._points_from_grids/volume')
+    col.default_replay = replay
+    col.function('maps._points_from_grids')
+    n = z3.Ints('n0 n1 n2')
+    m = z3.Ints('m0 m1 m2')
+    ROUND = z3.Function('rounded', z3.RealSort(), z3.RealSort(), z3.RealSort())
+
+    def mesh(tag, sh):
+        f = dict(shape_cells=tuple(sh), shape_nodes=tuple(x + 1 for x in sh))
+        for k, d in enumerate('xyz'):
+            f['nodes_' + d] = cx.NDArr(cx.Store(f'{tag}.nodes_{d}', z3.Real(f'{tag}_node_{d}')))
+            f['cell_centers_' + d] = cx.NDArr(cx.Store(f'{tag}.cell_centers_{d}', z3.Real(f'{tag}_centre_{d}')))
+            f['shape_edges_' + d] = tuple(x + (0 if j == k else 1) for j, x in enumerate(sh))
+            f['shape_faces_' + d] = tuple(x + (1 if j == k else 0) for j, x in enumerate(sh))
+        return cx.Obj('TensorMesh', f)
+
+    def mk(ctx):
+        def rnd(it, f, args, kw, node):
+            a = args[0]
+            dec = args[1] if len(args) > 1 else kw.get('decimals', 0)
+            if isinstance(a, cx.NDArr) and a.store.val is not None:
+                return cx.NDArr(cx.Store('rounded', ROUND(a.store.val, cx.R(dec))))
+            raise cx.Unsupported('np.round of something that is not an array of known contents')
+        pl = ctx.opts.setdefault('prelude', {})
+        pl['np.round'] = pl['np.around'] = pl['ndarray.round'] = rnd
+        grid, xi = mesh('grid', n), mesh('xi', m)
+        values = cx.Obj('ndarray', dict(shape=tuple(n)))
+        return [grid, values, xi, 'volume'], {}, dict(grid=grid, xi=xi)
+    pre = [x >= 1 for x in n + m]
+    res = cx.run_function('maps._points_from_grids', mk, pc0=pre, summaries={}, opts={})
+    clause(col, 'returns_normally_for_values_of_the_cell_shape_of_the_grid', res, lambda r: r.outcome == 'return', pre)
+
+    def nodes(r):
+        if r.outcome != 'return':
+            return None
+        v = r.value
+        if not (isinstance(v, tuple) and len(v) == 3 and all(isinstance(t, (tuple, list)) and len(t) == 3 for t in v[:2])):
+            return UNRECOGNISED('the result is not (three arrays, three arrays, shape)')
+        goal = []
+        for tri, g in ((v[0], r.state['grid']), (v[1], r.state['xi'])):
+            for k, d in enumerate('xyz'):
+                a, want = tri[k], g.fields['nodes_' + d]
+                if a is want:
+                    continue
+                if not isinstance(a, cx.NDArr) or a.view != 'whole':
+                    return UNRECOGNISED('an entry of the triples is not a whole array')
+                if a.store.val is None:
+                    return UNRECOGNISED('the contents of an array handed to the kernel are not known to the executor')
+                goal.append(a.store.val == want.store.val)
+        sh = v[2]
+        if not (isinstance(sh, tuple) and len(sh) == 3):
+            return UNRECOGNISED('the shape returned is not a triple')
+        goal += [cx.R(a) == cx.R(b) for a, b in zip(sh, m)]
+        return z3.And(*goal) if goal else True
+    clause(col, 'kernel_gets_exactly_the_nodes_of_the_input_grid_and_of_the_output_grid_direction_by_direction__shape_is_the_cell_shape_of_the_output_grid',
+           res, nodes, pre, sample=True)
+    canary(col, 'canary/kernel_gets_the_cell_centres', res,
+           lambda r: z3.And(*[r.value[0][k].store.val == r.state['grid'].fields['cell_centers_' + d].store.val for k, d in enumerate('xyz')]) if r.outcome == 'return' else None, pre)
+    return col.pack()
+
+
 def tasks(tier):
-    return [('contracts.c15', n, {}) for n in ('task_adjoint', 'task_weights', 'task_interp_volume_average', 'task_interpolate_wrapper', 'task_interpolate_to_grid',
+    return [('contracts.c15', n, {}) for n in ('task_adjoint', 'task_weights', 'task_interp_volume_average', 'task_interpolate_wrapper', 'task_points_from_grids', 'task_interpolate_to_grid',
                                               'task_log_symmetry', 'task_concrete')]
 
 
